@@ -19,9 +19,11 @@ Numeric predicates (computed by the harness, labelled as such, not TLC-decided):
        consistency at seeded GENERAL states (any attitude with |pitch| <= 75, |lat| <= 85, speeds to 300 m/s): measured one-step
        derivative against `rhs`;
        convergence: smooth body-frame rate / specific-force signals (sinusoids on a bias), sampled as a rate-type or increment-type
-       IMU, through compute_increments_from_imu and the Integrator, at n, 2n, 4n samples over 8 s, against a DOP853 solution of
-       `rhs` (rtol 1e-13): the distance to the exact solution is at most 3 times the change caused by halving the interval
-       (second-order method: 4/3) and shrinks (at most 0.6 of itself per halving; observed 0.12 .. 0.38), above the round-off floor.
+       IMU, through compute_increments_from_imu and the Integrator, at n, 2n, 4n, 8n samples over 8 s, against a DOP853 solution of
+       `rhs` (rtol 1e-13).  The error on nested grids expands as c0 + c1 h + c2 h^2 + O(h^3) with vector coefficients; the property
+       says c0 = 0: the error extrapolated to a zero interval from the three finest resolutions must be accounted for by the O(h^3)
+       remainder (it falls eightfold per halving; a constant component does not), the error must shrink from n to 8n samples, and at
+       the finest pair the distance to the exact solution is at most 8 times the change caused by halving (first-order method: 2).
 """
 import numpy as np
 from concurrent.futures import ThreadPoolExecutor
@@ -267,18 +269,32 @@ def _run(m, pva, sig, T, n, kind, irregular, rng_seed):
     return vec(m, it.integrate(inc).iloc[-1])
 
 
-def _dist(m, a, b):
+def _errvec(m, a, b):
+    """The signed error of state a against state b, per group: position [m, NED], velocity [m/s], attitude [rad, rotation vector]."""
     rn, re, rp = (float(x) for x in m["pyins"].earth.principal_radii(np.rad2deg(b[0]), b[2]))
-    dp = np.array([(a[0] - b[0]) * rn, (a[1] - b[1]) * rp, a[2] - b[2]])
+    dp = np.array([(a[0] - b[0]) * rn, (a[1] - b[1]) * rp, -(a[2] - b[2])])
     dC = a[6:].reshape(3, 3) @ b[6:].reshape(3, 3).T
-    ang = np.linalg.norm([dC[2, 1] - dC[1, 2], dC[0, 2] - dC[2, 0], dC[1, 0] - dC[0, 1]]) / 2
-    return np.array([np.linalg.norm(dp), np.linalg.norm(a[3:6] - b[3:6]), ang])
+    ang = np.array([dC[2, 1] - dC[1, 2], dC[0, 2] - dC[2, 0], dC[1, 0] - dC[0, 1]]) / 2
+    return [dp, a[3:6] - b[3:6], ang]
+
+
+def _dist(m, a, b):
+    return np.array([np.linalg.norm(v) for v in _errvec(m, a, b)])
 
 
 FLOOR = np.array([2e-6, 2e-7, 1e-10])       # metres, m/s, radians: below this a distance is round-off (of the reference, of 8 s of integration)
+GROUPS = ("position [m]", "velocity [m/s]", "attitude [rad]")
 
 
 def _convergence_chunk(m, payload):
+    """Four resolutions n, 2n, 4n, 8n.  The error of a smooth one-step method on nested grids has an expansion e(h) = c0 + c1 h + c2 h^2 +
+    O(h^3) with VECTOR coefficients; the property says c0 = 0.  (The chain is first order in the Coriolis / transport terms and second
+    order otherwise, with coefficients of either sign, so ratios of error NORMS at two resolutions are not a sound observable: a
+    thorough-tier round showed 0.83 per halving on the unchanged code in the transition between the two regimes.)
+      no_constant_component   E0(h) = (8 e(h/4) - 6 e(h/2) + e(h)) / 3 estimates c0 up to O(h^3); |E0(h/2)| <= 2 |E0(h/2) - E0(h)| + floor
+                              (converging: E0 = r h^3, ratio 1/7; a non-vanishing component: E0(h/2) = E0(h) = c0)
+      shrinks                 |e| at 8n samples <= 0.5 |e| at n samples + floor
+      small_multiple          at the finest pair |e(4n)| <= 8 |x(4n) - x(8n)| + floor (the property's own criterion; a first-order method has 2)"""
     from scipy.integrate import solve_ivp
     pd = m["pd"]
     seed, ks = payload
@@ -300,20 +316,26 @@ def _convergence_chunk(m, payload):
             if not sol.success:
                 raise RuntimeError("reference solution failed: " + str(sol.message))
             ref = sol.y[:, -1]
-            xs = [_run(m, pva, sig, T, n0 * 2 ** i, kind, irregular, k) for i in range(3)]
+            xs = [_run(m, pva, sig, T, n0 * 2 ** i, kind, irregular, k) for i in range(4)]
+            ev = [_errvec(m, x, ref) for x in xs]
             p = None
-            ratios = []
-            for i in range(2):
-                e = _dist(m, xs[i], ref); e2 = _dist(m, xs[i + 1], ref); d = _dist(m, xs[i], xs[i + 1])
-                for j, name in enumerate(("position [m]", "velocity [m/s]", "attitude [rad]")):
-                    if e[j] > FLOOR[j]:
-                        ratios.append((e[j] / max(d[j], 1e-300), e2[j] / e[j]))
-                    if e[j] > 3.0 * d[j] + FLOOR[j] and p is None:
-                        p = ("the distance to the exact solution (%s: %.3g at %d samples) is larger than 3 times the change caused by halving the interval (%.3g): an error component that "
-                             "does not vanish with the interval" % (name, e[j], n0 * 2 ** i, d[j]))
-                    if e2[j] > 0.6 * e[j] + FLOOR[j] and p is None:
-                        p = "the distance to the exact solution does not shrink with the interval (%s: %.3g at %d samples, %.3g at %d)" % (name, e[j], n0 * 2 ** i, e2[j], n0 * 2 ** (i + 1))
-            out.append((k, None if p is None else "convergence (%s): %s" % (tag, p), ratios))
+            stats = []
+            for j, name in enumerate(GROUPS):
+                e = [ev[i][j] for i in range(4)]
+                E0a = (8 * e[2] - 6 * e[1] + e[0]) / 3
+                E0b = (8 * e[3] - 6 * e[2] + e[1]) / 3
+                nb, nd = float(np.linalg.norm(E0b)), float(np.linalg.norm(E0b - E0a))
+                en = [float(np.linalg.norm(x)) for x in e]
+                d = float(np.linalg.norm(e[2] - e[3]))
+                stats.append((nb / max(2 * nd + 5 * FLOOR[j], 1e-300), en[3] / max(0.5 * en[0] + FLOOR[j], 1e-300), en[2] / max(8 * d + FLOOR[j], 1e-300)))
+                if p is None and nb > 2 * nd + 5 * FLOOR[j]:
+                    p = ("an error component that does not vanish with the interval (%s): the error extrapolated to a zero interval is %.3g from the three finest of "
+                         "%d .. %d samples and %.3g from the three coarsest (a vanishing remainder falls eightfold); errors %s" % (name, nb, n0, 8 * n0, float(np.linalg.norm(E0a)), ["%.3g" % x for x in en]))
+                if p is None and en[3] > 0.5 * en[0] + FLOOR[j]:
+                    p = "the distance to the exact solution does not shrink with the interval (%s: %.3g at %d samples, %.3g at %d)" % (name, en[0], n0, en[3], 8 * n0)
+                if p is None and en[2] > 8 * d + FLOOR[j]:
+                    p = ("the distance to the exact solution (%s: %.3g at %d samples) is larger than 8 times the change caused by halving the interval (%.3g)" % (name, en[2], 4 * n0, d))
+            out.append((k, None if p is None else "convergence (%s): %s" % (tag, p), stats))
         except Exception as e:
             if not exc.entered_pyins(e):
                 raise
@@ -340,7 +362,7 @@ def check(rep, pid, tier, seed):
         "convergence for general smooth signals, both sensor types, uniform and irregular sampling is judged by numeric predicates computed by the harness against a DOP853 "
         "solution of the right-hand side that the specification endorses (it must reproduce the printed table in every configuration) - labelled `numeric_predicates`, not "
         "TLC-decided",
-        "NOT decided: the rate of convergence beyond 'shrinks by at least 0.6 per halving'; horizons beyond 8 s; the poles; the no-altitude mode in the convergence runs (its "
+        "NOT decided: the rate of convergence (the chain is first order in the Coriolis / transport terms, second order otherwise); horizons beyond 8 s; the poles; the no-altitude mode in the convergence runs (its "
         "one-step consistency is decided)",
     ]
     dom = domain_module(tier, seed)
@@ -414,9 +436,8 @@ def check(rep, pid, tier, seed):
         general_states=n_gen, convergence_runs=n_conv,
         worst_deviation_over_tolerance_exact_configurations=round(worst_cfg, 4),
         worst_deviation_over_tolerance_general_states=round(worst_gen, 4),
-        error_over_halving_change_max=round(max([a for a, _ in ratios] or [0.0]), 3),
-        error_ratio_per_halving_max=round(max([b for _, b in ratios] or [0.0]), 3),
-        error_ratio_per_halving_min=round(min([b for _, b in ratios] or [0.0]), 3),
+        convergence_worst_over_bound=dict(no_constant_component=round(max([a for a, _, _ in ratios] or [0.0]), 3), shrinks=round(max([b for _, b, _ in ratios] or [0.0]), 3),
+                                          small_multiple=round(max([c for _, _, c in ratios] or [0.0]), 3)),
         note="computed by the harness (difference quotients through the real Integrator; DOP853 reference on the right-hand side that reproduces the specification's table), not TLC-decided")
     rep.traces += len(cfgs) + n_gen + n_conv
     rep.evaluations += len(cfgs) + n_gen + n_conv
